@@ -276,45 +276,7 @@ def print_wrap(R, P):
         R.check(len(ih) == 1 and "s_aws_cJSON_alloc" in txt and "s_aws_cJSON_free" in txt, "PRINT-WRAP", "module-allocator-hooks", "%s()" % f.name, "cJSON allocates through the module allocator")
 
 
-def depth_balance(R, P):
-    """DEPTH: the nesting counters of the vendored parser and printer are balanced: in parse_array / parse_object /
-    print_array / print_object every path from the increment to a successful return passes exactly one decrement, so
-    siblings do not use up the nesting limit (a document with 1000 empty arrays side by side re-parses) and the
-    indentation depth of the formatted printer returns to its level."""
-    n = 0
-    for name in ("parse_array", "parse_object", "print_array", "print_object"):
-        f = P.fn(name)
-        if not R.require(f is not None, "%s not found in cJSON.c" % name):
-            continue
-        R.fn(f)
-        incs, decs = [], []
-        for e in f.all_events():
-            if e.kind == "access" and e.node["k"] == "member" and e.node["f"] == "depth" and e.mode in ("rw", "w"):
-                # find the enclosing ++/--
-                for b in f.blocks.values():
-                    for el in b.elems:
-                        for x in f.walk(el):
-                            if x["k"] == "un" and f.d(x["a"][0]) is e.node:
-                                if "++" in x["op"] or x["op"] in ("postinc", "preinc"):
-                                    incs.append(e)
-                                elif "--" in x["op"] or x["op"] in ("postdec", "predec"):
-                                    decs.append(e)
-        if not R.require(len(incs) == 1 and len(decs) >= 1, "%s: depth increment / decrement not found (%d/%d)" % (name, len(incs), len(decs))):
-            continue
-        ts = Typestate(f, 0, lambda e, s: min(s + 1, 3) if any(e is i for i in incs) else (s - 1 if any(e is d for d in decs) and s > -2 else s))
-        bad = []
-        for r_ in f.returns():
-            v = RU.uncast(f, r_.node["a"][0]) if r_.node["a"] else None
-            while v is not None and v["k"] == "cast":
-                v = f.d(v["a"][0])
-            if v is not None and f.is_const(v) == 1:
-                sts_ = ts.before.get(r_.pos, set())
-                n += 1
-                if sts_ != {0}:
-                    bad.append((r_.node["loc"][0], sorted(sts_)))
-        R.check(not bad, "TREE-SHAPE", "depth-balanced:%s" % name, "%s in %s()" % (CJ, name), "every successful return has undone the depth increment",
-                "a successful return of %s leaves the nesting counter changed (line, net change: %s): each such value permanently uses up one level of the nesting limit, so valid output of the serialiser (many empty arrays side by side) is refused on re-parsing" % (name, bad))
-    R.require(n >= 4, "depth balance: only %d successful returns analysed" % n)
+from rules.cjson_depth import depth_balance
 
 
 def analyse(ctx, replace=None, only=None):
